@@ -905,3 +905,90 @@ Proof.
       intros _. unfold pos_ok. simp_rec. cbn [last_pos].
       clear - ST B1 B3 B4 NP1 NP2 NP4 G4. intuition (try discriminate; try congruence; try lia).
 Qed.
+
+(* ---- kick, position ---- *)
+Lemma Inv_bad e m b : Inv e m -> Inv e (add_bad m b).
+Proof. intros [A B C D E F G H I J]. constructor; assumption. Qed.
+
+Lemma good_add_bad_f m b : good_b m = true -> b = false -> good_b (add_bad m b) = true.
+Proof. intros G ->. apply good_add_bad. exact G. Qed.
+
+Lemma eqlz_refl l : eqlz l l = true.
+Proof. induction l as [|x l IH]; cbn; [reflexivity|]. rewrite Z.eqb_refl, IH. reflexivity. Qed.
+
+Lemma with_regs_same q : with_regs q (regs q) = q.
+Proof. destruct q; reflexivity. Qed.
+
+Lemma inv_rec_any e m s o : Inv e m -> get (objs e) s = Some o ->
+  exists r, get (m_subs m) s = Some r /\ m_live r = s_live o.
+Proof.
+  intros I G. destruct (get (m_subs m) s) as [r|] eqn:E.
+  - exists r. split; [reflexivity|]. symmetry. apply (i_live _ _ I s o r G E).
+  - apply (i_none _ _ I) in E. congruence.
+Qed.
+
+Lemma slot_owner e m h : Inv e m -> r_used (rget (regs (pq e)) h) = true ->
+  exists s o, live_obj e s = Some o /\ s_h o = h /\ r_sub (rget (regs (pq e)) h) = Z.of_nat s.
+Proof.
+  intros I U. destruct (i_own _ _ I h U) as (s & o & L & E). exists s, o. split; [exact L|]. split; [exact E|].
+  destruct (inv_rec _ _ _ _ I L) as (r & Gr & _). pose proof (i_sub _ _ I s o r L Gr) as (_ & SB & _). rewrite E in SB. exact SB.
+Qed.
+
+Lemma step_kick e m s : good_b m = true -> m_viol m = false -> Inv e m ->
+  R (fst (step e (OKick s))) (mon_step m (OKick s) (snd (step e (OKick s)))).
+Proof.
+  intros G V I. unfold step, step_gen.
+  destruct (get (objs e) s) as [o|] eqn:GO.
+  2:{ unfold mon_step. rewrite V. cbn. apply R_same; assumption. }
+  destruct (palive e || s_live o) eqn:PA.
+  2:{ unfold mon_step. rewrite V. cbn. apply R_same; assumption. }
+  destruct (inv_rec_any _ _ _ _ I GO) as (r & Gr & LV).
+  cbn [fst snd]. unfold mon_step. rewrite V. cbn [o_st okw Z.eqb negb o_wk]. rewrite Gr, LV.
+  destruct (s_live o) eqn:SL.
+  - (* a live subscriber: its registration is marked, its awaiter resumed *)
+    pose proof (live_obj_intro _ _ _ GO SL) as L.
+    pose proof (i_sub _ _ I s o r L Gr) as (U & SB & MD & VM & KK & CU & RG & AW & PO).
+    assert (HL : (s_h o < length (regs (pq e)))%nat) by (apply rget_used_lt; exact U).
+    pose proof (good_rec _ _ _ G Gr) as GR. unfold rec_good_b in GR.
+    set (l := rget (regs (pq e)) (s_h o)) in *.
+    assert (KR : kick_regs (Z.of_nat s) (regs (pq e)) =
+                 (set_nth (regs (pq e)) (s_h o) (mkReg (r_pos l) (r_sub l) None (r_used l) true), r_awt l)).
+    { apply kick_regs_at; try assumption.
+      intros k Lk Uk Sk. destruct (slot_owner _ _ _ I Uk) as (s' & o' & L' & E' & SB').
+      rewrite SB' in Sk. apply Nat2Z.inj in Sk. subst s'. rewrite L in L'. injection L' as <-. symmetry. exact E'. }
+    unfold kick_lk. rewrite KR. cbn [fst snd].
+    change (with_regs (pq e) (set_nth (regs (pq e)) (s_h o) (mkReg (r_pos l) (r_sub l) None (r_used l) true)))
+      with (set_reg (pq e) (s_h o) (mkReg (r_pos l) (r_sub l) None (r_used l) true)).
+    assert (EX : eqlz (match m_pc r with PParked a => [a] | _ => [] end) (olist (r_awt l)) = true).
+    { rewrite AW. destruct (m_pc r); cbn; try reflexivity. rewrite Z.eqb_refl. reflexivity. }
+    rewrite EX. cbn [negb].
+    split.
+    + apply good_add_bad. apply good_set_sub; [exact G|]. unfold rec_good_b, wake_rec.
+      destruct (m_pc r); cbn [with_pc m_mode m_start m_deliv m_eos m_eos_ok m_lost]; exact GR.
+    + right. apply Inv_bad. unfold with_pq. cbn [pq objs nawt palive].
+      apply (local_update e m s o r); try assumption; try reflexivity.
+      * unfold sub_ok, wake_rec. destruct (m_pc r) eqn:PC; splits; simp_rec; try assumption; try reflexivity; try lia.
+        all: try (intros EO; specialize (PO EO); clear - PO; unfold pos_ok in *; simp_rec;
+                  intuition (try discriminate; try congruence; try lia)).
+        all: try (rewrite PC; reflexivity).
+      * apply awt_same_keep; [exact HL|apply (i_awt _ _ I)|apply (i_awt _ _ I)|left; reflexivity].
+  - (* an already destroyed subscriber: no registration matches *)
+    assert (KR : kick_regs (Z.of_nat s) (regs (pq e)) = (regs (pq e), None)).
+    { apply kick_regs_none. intros k Lk Uk Sk. destruct (slot_owner _ _ _ I Uk) as (s' & o' & L' & E' & SB').
+      rewrite SB' in Sk. apply Nat2Z.inj in Sk. subst s'. apply live_obj_get in L' as (L1 & L2). congruence. }
+    unfold kick_lk. rewrite KR. cbn [fst snd olist eqlz negb]. rewrite with_regs_same, with_pq_same.
+    split; [apply good_add_bad; exact G|right; apply Inv_bad; exact I].
+Qed.
+
+Lemma step_position e m s : good_b m = true -> m_viol m = false -> Inv e m ->
+  R (fst (step e (OPosition s))) (mon_step m (OPosition s) (snd (step e (OPosition s)))).
+Proof.
+  intros G V I. unfold step, step_gen.
+  destruct (live_obj e s) as [o|] eqn:L.
+  2:{ unfold mon_step. rewrite V. cbn. apply R_same; assumption. }
+  destruct (inv_rec _ _ _ _ I L) as (r & Gr & LV).
+  pose proof (i_sub _ _ I s o r L Gr) as (U & SB & MD & VM & KK & CU & RG & AW & PO).
+  cbn [fst snd]. unfold mon_step. rewrite V. cbn [o_st ok3 Z.eqb negb o_a]. rewrite Gr, LV. cbn [negb].
+  unfold pos_of. rewrite CU, Z.eqb_refl. cbn [negb].
+  split; [apply good_add_bad; exact G|right; apply Inv_bad; exact I].
+Qed.
